@@ -871,17 +871,22 @@ pub(super) fn translate_ident(
 
 pub(super) fn translate_ident_part(ident: String, ctx: &Context) -> sql_ast::Ident {
     let is_bare = valid_ident().is_match(&ident);
+    // sqlparser writes a quoted identifier without touching a doubled quote
+    // character in its value (it takes it for an escaped one), so double them
+    // here: the column `a"b` is `"a""b"`, the column `""` is `""""""`.
+    let quoted = |ident: String| {
+        let quote = ctx.dialect.ident_quote();
+        sql_ast::Ident::with_quote(quote, ident.replace(quote, &format!("{quote}{quote}")))
+    };
     match ctx.dialect.ident_quoting_style() {
         IdentQuotingStyle::ConditionallyQuoted => {
             if is_bare && !keywords::is_keyword(&ident, &ctx.dialect_enum) {
                 sql_ast::Ident::new(ident)
             } else {
-                sql_ast::Ident::with_quote(ctx.dialect.ident_quote(), ident)
+                quoted(ident)
             }
         }
-        IdentQuotingStyle::AlwaysQuoted => {
-            sql_ast::Ident::with_quote(ctx.dialect.ident_quote(), ident)
-        }
+        IdentQuotingStyle::AlwaysQuoted => quoted(ident),
     }
 }
 
